@@ -212,6 +212,22 @@ def position_sites(fnode):
                             cum_names.add(x.id)
     def from_cum(e):
         return any(isinstance(x, ast.Call) and src(x.func).split(".")[-1] == "cumsum" for x in ast.walk(e)) or any(isinstance(x, ast.Name) and x.id in cum_names for x in ast.walk(e))
+    # names bound by iterating over cumulative counts: for a, b in zip(stops - counts, stops)
+    for _ in range(2):
+        for n in ast.walk(fnode):
+            gens = [(n.target, n.iter)] if isinstance(n, ast.For) else ([(g.target, g.iter) for g in n.generators] if isinstance(n, (ast.ListComp, ast.GeneratorExp, ast.DictComp, ast.SetComp)) else [])
+            for tgt, it in gens:
+                if isinstance(it, ast.Call) and isinstance(it.func, ast.Name) and it.func.id in ("zip", "enumerate") and isinstance(tgt, ast.Tuple):
+                    args = it.args if it.func.id == "zip" else [ast.Constant(value=0)] + list(it.args)
+                    for t_, a_ in zip(tgt.elts, args):
+                        if from_cum(a_):
+                            cum_names.update(x.id for x in ast.walk(t_) if isinstance(x, ast.Name))
+                elif from_cum(it):
+                    cum_names.update(x.id for x in ast.walk(tgt) if isinstance(x, ast.Name))
+        for n in ast.walk(fnode):
+            if isinstance(n, ast.Assign) and from_cum(n.value) and not isinstance(n.value, ast.Call):
+                for t in n.targets:
+                    cum_names.update(x.id for x in ast.walk(t) if isinstance(x, ast.Name))
     for n in ast.walk(fnode):
         if isinstance(n, ast.Call) and src(n.func).split(".")[-1] in ("split", "array_split") and len(n.args) >= 2 and from_cum(n.args[1]):
             out.append(n)
@@ -256,6 +272,17 @@ def check(P, R, modules, scope=None, rules=("T1", "T2", "T3", "T4", "T5", "T6", 
                 R.violation(rule + ".enum-filtered", f.key, src(node).split("\n")[0][:70], f"`{idx}` counts the elements that pass the filter but indexes a sequence that still holds all of them: after a dropped element every later position is paired with the wrong entry", node.lineno)
         if "T3" in rules:
             for c in reduceat_sites(f.node):
+                # segments that start where the sorted labels change are never empty (GROUP: change_points)
+                from . import group as _grp
+                du = du or get_defuse(f, P)
+                if len(c.args) >= 2:
+                    try:
+                        okc, whyc = _grp.change_points(du, c.args[1], du.stmt_of(c), lambda cn: True)
+                    except Exception:
+                        okc, whyc = False, ""
+                    if okc:
+                        R.ok(rule + ".reduceat", f.key, src(c)[:60], whyc, c.lineno)
+                        continue
                 n += 1
                 R.violation(rule + ".reduceat", f.key, src(c)[:60], "ufunc.reduceat returns values[offset] - not the identity - for an empty segment: a group without members in this block receives an element of the next group", c.lineno)
         if "T4" in rules:
@@ -267,7 +294,28 @@ def check(P, R, modules, scope=None, rules=("T1", "T2", "T3", "T4", "T5", "T6", 
                 n += 1
                 R.violation(rule + ".like-with-like", f.key, src(c)[:60], f"`{src(c)}` compares different shape fields of the two objects", c.lineno)
         if "T7" in rules and any(p_ in ("y", "labels") for p_ in f.params):
+            du = du or get_defuse(f, P)
+            labs = [p_ for p_ in f.params if p_ in ("y", "labels")]
             for c in position_sites(f.node):
+                # positions in an order that sorts the labels are members of one class (GROUP G1-G5), positions in the
+                # order the samples were given are not
+                from . import group as _grp
+                from ..dataflow import cone as _cone
+                try:
+                    st_ = du.stmt_of(c)
+                except Exception:
+                    st_ = None
+                if st_ is not None and isinstance(c, ast.Call):
+                    g_ = _grp.sort_split(du, c, st_, labs)
+                    if g_.kind is not None and g_.ok:
+                        R.ok(rule + ".by-position", f.key, src(c)[:60], g_.why, c.lineno)
+                        continue
+                if st_ is not None and isinstance(c, ast.Subscript):
+                    bc = _cone(du, c.value, st_, interproc=False)
+                    sorts = [x for x in bc.nodes if isinstance(x, ast.Call) and (x.func.attr if isinstance(x.func, ast.Attribute) else getattr(x.func, "id", "")) in _grp.SORTS]
+                    if sorts and any(set(labs) & _cone(du, (s_.args[0] if s_.args else s_.func.value), du.stmt_of(s_), interproc=False).params for s_ in sorts):
+                        R.ok(rule + ".by-position", f.key, src(c)[:60], "a run of an order that sorts the labels", c.lineno)
+                        continue
                 n += 1
                 R.violation(rule + ".by-position", f.key, src(c)[:60], "the samples of a class are taken as a run of positions (cumulative class counts) instead of by their label: right only when the samples are presented grouped by class in ascending id order, so the result depends on the order of the samples", c.lineno)
         if "T6" in rules:
